@@ -12,6 +12,11 @@ expressions, whose laziness the hoisting would lose); `for i in range(e):` whose
 plain character class, of whose match object only `is None` and `.start()` are used; functions returning `None` or a string;
 dictionaries of strings (insertion-ordered lists of pairs): `d[k]` (KeyError as in Python), the find-first idiom
 `v = None; for k in d: if c: v = k; break` (`PyOps.findFirst`), `x.replace(a, b)`; `return a if c else b` read as an `if`.
+`while c: body` over the locals the body assigns (`PyOps.whileFuel`; the generated function takes a leading `fuel : Nat`, and so does every
+function that calls it), with `break` / `continue` / `return` inside, `x += e` / `x -= e`, a list of strings built by `r = []` / `r.append(e)`,
+`len(list)`, `x.find(p, start)`, `c.isspace()` / `c.isnumeric()` on a character `x[i]` (isnumeric: ASCII digits, reported as an assumption), a
+character compared with a one-character constant; in a `while` / `if` condition `x[i]` may stand behind `and` / `or` (the condition is then
+a monadic expression that keeps Python's short-circuit order).
 Every generated function returns `Except PyExc T`."""
 import ast
 
@@ -24,8 +29,24 @@ def lstr(s):
     return '"' + s.replace('\\', '\\\\').replace('"', '\\"').replace('\n', '\\n').replace('\t', '\\t').replace('\r', '\\r') + '".toList'
 
 
+def lchar(c):
+    if c in ("'", "\\"):
+        return "'\\%s'" % c
+    if 32 <= ord(c) < 127:
+        return "'%s'" % c
+    return "(Char.ofNat %d)" % ord(c)
+
+
 NARROWS = {'optstr': 'str', 'optint': 'matchpos'}     # `x is None` tests narrow an optional to this type
 EXC = {'ValueError': 'PyExc.valueError', 'RuntimeError': 'PyExc.runtimeError', 'IndexError': 'PyExc.indexError', 'KeyError': 'PyExc.keyError'}
+
+
+def is_loop(x):
+    return bool(x)
+
+
+def is_while(x):
+    return isinstance(x, tuple)
 
 
 class TrS:
@@ -35,6 +56,7 @@ class TrS:
         self.known = known_funcs         # python function name -> (lean name, [param types], ret type, needs_resolve)
         self.assumptions = assumptions
         self.uses_resolve = False
+        self.uses_fuel = False
         self.hoist = []                  # monadic binds (`let c ← PyOps.index x i`) the current statement needs first
         self.lazy_depth = 0              # > 0 inside `and` / `or` / conditional expressions
         self.fresh = 0
@@ -50,6 +72,8 @@ class TrS:
                 return "(%d : Int)" % n.value, 'int'
             if n.value is None:
                 return "none", 'optstr'
+        if isinstance(n, ast.List) and not n.elts:
+            return "([] : List (List Char))", 'strlist'
         if isinstance(n, ast.Name):
             if n.id in self.env:
                 return n.id, self.env[n.id]
@@ -130,7 +154,7 @@ class TrS:
             f = n.func
             if isinstance(f, ast.Name) and f.id == 'len' and len(n.args) == 1:
                 x, tx = self.expr(n.args[0])
-                if tx == 'str':
+                if tx in ('str', 'strlist'):
                     return "((%s).length : Int)" % x, 'int'
             if isinstance(f, ast.Name) and f.id == 'urljoin' and len(n.args) == 2:
                 (a, ta), (b, tb) = self.expr(n.args[0]), self.expr(n.args[1])
@@ -168,6 +192,9 @@ class TrS:
                 if any(k not in self.env for k in need):
                     raise Untranslatable("callee %s reads an attribute the caller does not have" % fkey)
                 selfargs = ["self" + k[5:] for k in need]
+                if len(self.consts[fkey]) > 6 and self.consts[fkey][6]:      # the callee runs a `while` loop: it takes the caller's fuel
+                    self.uses_fuel = True
+                    selfargs = ["fuel"] + selfargs
                 self.hoist.append("let %s ← %s %s" % (v, lname, " ".join(selfargs + cargs)))
                 return v, rty
             if isinstance(f, ast.Attribute) and f.attr == 'search' and isinstance(f.value, ast.Name) and len(n.args) == 1 and not n.keywords \
@@ -181,6 +208,13 @@ class TrS:
             if isinstance(f, ast.Attribute) and not n.keywords:
                 x, tx = self.expr(f.value)
                 args = [self.expr(a) for a in n.args]
+                if tx == 'char' and not args and f.attr == 'isspace':
+                    return "(PyOps.isSpace %s)" % x, 'bool'
+                if tx == 'char' and not args and f.attr == 'isnumeric':
+                    self.assumptions.add("c.isnumeric() read as: c is an ASCII digit (other numeric code points are outside the documents in scope)")
+                    return "(PyOps.isNumeric %s)" % x, 'bool'
+                if tx == 'str' and f.attr == 'find' and len(args) == 2 and args[0][1] == 'str' and args[1][1] == 'int':
+                    return "(PyOps.findAt %s %s %s)" % (x, args[0][0], args[1][0]), 'int'
                 if tx == 'str':
                     if f.attr in ('startswith', 'endswith') and len(args) == 1 and args[0][1] == 'str':
                         return "(PyOps.%s %s %s)" % ('startsWith' if f.attr == 'startswith' else 'endsWith', x, args[0][0]), 'bool'
@@ -217,8 +251,9 @@ class TrS:
                 if tx == 'str':     # a plain string is never None
                     return ("true" if isinstance(op, ast.IsNot) else "false"), 'bool'
             (a, ta), (b, tb) = self.expr(l), self.expr(r)
-            if False:
-                pass
+            if isinstance(op, (ast.Eq, ast.NotEq)) and ta == 'char' and isinstance(r, ast.Constant) and isinstance(r.value, str) and len(r.value) == 1:
+                e = "(%s == %s)" % (a, lchar(r.value))          # x[i] == "c": one-character strings are equal iff the characters are
+                return (e if isinstance(op, ast.Eq) else "(!%s)" % e), 'bool'
             if isinstance(op, (ast.In, ast.NotIn)) and ta == 'str' and tb == 'strdict':
                 e = "(PyOps.dictHas %s %s)" % (b, a)
                 return (e if isinstance(op, ast.In) else "(!%s)" % e), 'bool'
@@ -239,11 +274,55 @@ class TrS:
             return c
         raise Untranslatable("condition is not a bool: " + ast.dump(n)[:100])
 
+    def mcond(self, n):
+        """a condition as a monadic expression `Except PyExc Bool`: `and` / `or` evaluate their right operand (with its `x[i]` binds) only when
+        Python would"""
+        if isinstance(n, ast.BoolOp):
+            parts = [self.mcond(v) for v in n.values]
+            code = parts[-1]
+            for p in reversed(parts[:-1]):
+                if isinstance(n.op, ast.And):
+                    code = "(do\n  if !(← %s) then pure false else %s)" % (p, code)
+                else:
+                    code = "(do\n  if (← %s) then pure true else %s)" % (p, code)
+            return code
+        saved_h, saved_l = self.hoist, self.lazy_depth
+        self.hoist, self.lazy_depth = [], 0
+        try:
+            c = self.boolean(n)
+            pre = self.hoist
+        finally:
+            self.hoist, self.lazy_depth = saved_h, saved_l
+        return "(do\n  " + "".join(h + "\n  " for h in pre) + "pure %s)" % c
+
+    def test(self, n):
+        """the test of an `if`: plain when it translates as an expression, else monadic (short-circuit kept)"""
+        if self.translates_as_expression(n):
+            return self.boolean(n)
+        return "(← %s)" % self.mcond(n)
+
+    @staticmethod
+    def loop_assigned(stmts):
+        out = set()
+        for s in stmts:
+            if isinstance(s, ast.Assign) and len(s.targets) == 1 and isinstance(s.targets[0], ast.Name):
+                out.add(s.targets[0].id)
+            elif isinstance(s, ast.AugAssign) and isinstance(s.target, ast.Name):
+                out.add(s.target.id)
+            elif isinstance(s, ast.Expr) and isinstance(s.value, ast.Call) and isinstance(s.value.func, ast.Attribute) \
+                    and s.value.func.attr == 'append' and isinstance(s.value.func.value, ast.Name):
+                out.add(s.value.func.value.id)
+            elif isinstance(s, ast.If):
+                out |= TrS.loop_assigned(s.body) | TrS.loop_assigned(s.orelse)
+            elif isinstance(s, (ast.While, ast.For)):
+                raise Untranslatable("nested loop")
+        return out
+
     # ------------------------------------------------------------ statements
     @staticmethod
     def terminates(stmts):
         for s in stmts:
-            if isinstance(s, (ast.Return, ast.Raise)):
+            if isinstance(s, (ast.Return, ast.Raise, ast.Break, ast.Continue)):
                 return True
             if isinstance(s, ast.If) and TrS.terminates(s.body) and TrS.terminates(s.orelse):
                 return True
@@ -349,6 +428,8 @@ class TrS:
     def block(self, stmts, ret, in_loop=False):
         """in_loop: the block is the body of `for i in range(..)`: its value is `Option ret` (`some v` = `return v`, `none` = next round)"""
         if not stmts:
+            if is_while(in_loop):
+                return "pure (PyOps.Ctl.next %s)" % in_loop[1]
             if in_loop:
                 return "pure none"
             raise Untranslatable("falls off the end without a value")
@@ -390,6 +471,40 @@ class TrS:
                     self.env[key] = old_k
             self.env[var] = 'optstr'
             return "let %s := PyOps.findFirst %s (fun %s => %s)\n  %s" % (var, d_e, key, " && ".join(cs) or "true", self.block(tail[1:], ret))
+        if isinstance(s, ast.AugAssign) and isinstance(s.target, ast.Name) and isinstance(s.op, (ast.Add, ast.Sub)):
+            s = ast.Assign(targets=[ast.Name(id=s.target.id, ctx=ast.Store())], value=ast.BinOp(left=ast.Name(id=s.target.id, ctx=ast.Load()), op=s.op, right=s.value))
+        if isinstance(s, ast.Expr) and isinstance(s.value, ast.Call) and isinstance(s.value.func, ast.Attribute) and s.value.func.attr == 'append' \
+                and isinstance(s.value.func.value, ast.Name) and self.env.get(s.value.func.value.id) == 'strlist' and len(s.value.args) == 1 \
+                and not s.value.keywords:
+            e, t = self.expr(s.value.args[0])
+            if t != 'str':
+                raise Untranslatable("append of a non-string")
+            v = s.value.func.value.id
+            return self.flush("let %s := %s ++ [%s]\n  " % (v, v, e)) + self.block(tail, ret, in_loop)
+        if isinstance(s, ast.Break) and is_while(in_loop):
+            return "pure (PyOps.Ctl.brk %s)" % in_loop[1]
+        if isinstance(s, ast.Continue) and is_while(in_loop):
+            return "pure (PyOps.Ctl.next %s)" % in_loop[1]
+        if isinstance(s, ast.While):
+            if in_loop:
+                raise Untranslatable("nested loop")
+            if s.orelse:
+                raise Untranslatable("while with an else clause")
+            state = sorted(v for v in self.loop_assigned(s.body) if v in self.env)
+            if not state:
+                raise Untranslatable("while loop that assigns none of the variables defined before it")
+            tup = state[0] if len(state) == 1 else "(" + ", ".join(state) + ")"
+            self.uses_fuel = True
+            cond = self.mcond(s.test)
+            saved_env = dict(self.env)
+            try:
+                body = self.block(list(s.body), ret, in_loop=('while', tup))
+            finally:
+                self.env = saved_env
+            self.fresh += 1
+            r = "w_%d" % self.fresh
+            return ("let %s ← PyOps.whileFuel (fun %s => do\n  if !(← %s) then pure (PyOps.Ctl.brk %s) else (do\n  %s)) fuel %s\n"
+                    "  match %s with\n  | .inr v => pure v\n  | .inl %s => (do\n  %s)") % (r, tup, cond, tup, body, tup, r, tup, self.block(tail, ret))
         if isinstance(s, ast.For):
             if in_loop:
                 raise Untranslatable("nested loop")
@@ -433,6 +548,8 @@ class TrS:
                 e, t = "(some %s)" % e, 'optstr'
             if t != ret:
                 raise Untranslatable("returns %s, expected %s" % (t, ret))
+            if is_while(in_loop):
+                return self.flush("pure (PyOps.Ctl.ret %s)" % e)
             return self.flush("pure (some %s)" % e if in_loop else "pure %s" % e)
         if isinstance(s, ast.Raise):
             exc = s.exc
@@ -476,7 +593,7 @@ class TrS:
                 if len(self.hoist) != n_h:
                     raise Untranslatable("x[i] inside a conditional re-assignment")
                 return "let %s := %s\n  %s" % (var, re_e, self.block(tail, ret))
-            test = self.boolean(s.test)
+            test = self.test(s.test)
             head = self.flush("")
             body = self.block(list(s.body) + ([] if self.terminates(s.body) else tail), ret, in_loop)
             orelse = self.block(list(s.orelse) + ([] if self.terminates(s.orelse) else tail), ret, in_loop)
@@ -500,6 +617,8 @@ def translate(out, report, assumptions, lean_name, fn, param_types, ret, consts,
         if tr.hoist:
             raise Untranslatable("an index expression was left unbound")
         sig = " ".join("(%s : %s)" % (("self" + p[5:]) if p.startswith('self.') else p, LEAN_TY[t]) for p, t in selfattrs + params)
+        if tr.uses_fuel:
+            sig = "(fuel : Nat) " + sig
         if tr.uses_resolve:
             sig = "(resolve : List Char → List Char → List Char) " + sig
         out.append("def %s %s : Except PyExc (%s) := do\n  %s\n" % (lean_name, sig, LEAN_TY[ret], body))
